@@ -415,7 +415,7 @@ class Planner:
         new['_steps'] = rec['steps']
         return new
 
-    def gen_compile(self, kinds, next_id, forbidden_names, client_names):
+    def gen_compile(self, kinds, next_id, forbidden_names, client_names, prefer_foreign=False, prefer_child=False):
         """A Grammar() construction as an operation of a client."""
         r = self.wr
         # a module whose name (or an ancestor's name) has been re-bound can still be parsed with,
@@ -437,10 +437,31 @@ class Planner:
         usable = [m for m in self.infos.values() if m.name and not stale(m)
                   and getattr(m, 'owner', client_names) == client_names]
         parents = [m for m in usable if not (names_of(m) & forbidden_names) and m.gen is not None]
-        victims = [m for m in usable if m.name not in forbidden_names and m.parent is None]
+        victims = [m for m in usable if m.name not in forbidden_names and m.parent is None
+                   and not getattr(m, 'frozen', False)]
+        # a module that ANOTHER client creates in this run under a name never bound before may be extended as
+        # well: depending on the schedule the construction fails (parent not there yet) or must see a complete
+        # parent -- never a half-built one.  (Its name is frozen: nobody re-binds it afterwards.)
+        foreign = [m for m in self.infos.values() if m.name and not stale(m) and m.gen is not None
+                   and getattr(m, 'owner', client_names) != client_names and getattr(m, 'fresh_name', False)
+                   and not getattr(m, 'binary', False)]
         named_roots = parents
         choice = r.random()
-        if 'name_reuse' in kinds and choice < 0.22:
+        if foreign and (prefer_foreign or r.random() < 0.25):
+            parent = r.choice(sorted(foreign, key=lambda m: m.id))
+            s, g = spec.gen_child(r, parent.gen)
+            info = ModInfo(next_id, mod_name(next_id), parent.id, s, g, parent=parent)
+            info.fresh_name = True
+            anc = parent
+            while anc is not None:
+                anc.frozen = True
+                anc = anc.parent
+            op = {'op': 'compile', 'mod': next_id, 'desc': info.desc, 'name': info.name, 'extends': info.extends,
+                  'extends_foreign': True}
+            if r.random() < 0.6:
+                op['include_source'] = True
+            return [(op, info)]
+        if 'name_reuse' in kinds and choice < 0.22 and not prefer_child:
             # "edit the base, re-run everything": an extended root is re-created under its name with
             # edited rules, then a child is re-created from its byte-identical description
             pairs = [(v, k) for v in victims for k in usable
@@ -457,10 +478,11 @@ class Planner:
                     out.append(({'op': 'compile', 'mod': info.id, 'desc': info.desc, 'name': info.name,
                                  'extends': info.extends, 'recreate': True}, info))
                 return out
-        if named_roots and choice < 0.35:
+        if named_roots and (choice < 0.35 or prefer_child):
             parent = r.choice(sorted(named_roots, key=lambda m: m.id))
             s, g = spec.gen_child(r, parent.gen)
             info = ModInfo(next_id, mod_name(next_id), parent.id, s, g, parent=parent)
+            info.fresh_name = True
         elif victims and 'name_reuse' in kinds and choice < 0.6:
             victim = r.choice(sorted(victims, key=lambda m: m.id))
             s, g = spec.gen_root(r, True, n_rules=r.randint(2, 4))
@@ -470,6 +492,7 @@ class Planner:
             named = r.random() < 0.6
             s, g = spec.gen_root(r, named, n_rules=r.randint(2, 4))
             info = ModInfo(next_id, mod_name(next_id) if named else None, None, s, g)
+            info.fresh_name = bool(named)
         op = {'op': 'compile', 'mod': next_id, 'desc': info.desc, 'name': info.name, 'extends': info.extends}
         if r.random() < 0.6:
             op['include_source'] = True
@@ -556,7 +579,9 @@ class Planner:
                         if cj != ci:
                             forbidden |= names
                     failed = False
-                    for op, info in self.gen_compile(kinds, next_id, forbidden, ci):
+                    for op, info in self.gen_compile(kinds, next_id, forbidden, ci,
+                                                     prefer_foreign=(race and ci == 1 and not ops and wr.random() < 0.7),
+                                                     prefer_child=(race and ci == 0 and not ops and wr.random() < 0.6)):
                         if failed:
                             break
                         # the child's parent name must not be re-bound by another client
@@ -657,9 +682,17 @@ class Planner:
             # half of the time: uniformly among the steps of the construction's own logic (grammar.py, translator.py,
             # expressions/) rather than of its two large sub-engines, the generated meta-parser and the code emitter
             own = [i + 1 for i, fn in enumerate(trace) if ('/sourcer/' in fn and not fn.endswith('/sourcer/parser.py'))]
-            if own and sr.random() < 0.5:
+            # ... or among the steps inside the body of the module being built (the window in which a module could
+            # be visible to others before it is complete)
+            body = [i + 1 for i, fn in enumerate(trace) if fn.startswith('<' + U.PREFIX) or fn == '<grammar>']
+            x = sr.random()
+            if body and clients[1][0].get('extends_foreign') and x < 0.8:
+                u = sr.choice(body)
+            elif own and x < 0.35:
                 u = sr.choice(own)
-            pol = {'kind': 'race', 'u': u, 'own_logic_steps': len(own), 'steps': steps0}
+            elif body and x < 0.7:
+                u = sr.choice(body)
+            pol = {'kind': 'race', 'u': u, 'own_logic_steps': len(own), 'module_body_steps': len(body), 'steps': steps0}
         pol['seed'] = rngm.derive('policy', self.seed)
         watch_lib = any(op['op'] == 'compile' for ops in clients for op in ops)
         return {
@@ -792,6 +825,7 @@ def simulate(plan, schedule=None, wall_timeout=120.0, attach=None):
             sim.spawn(lambda t, ops=ops, ci=ci: _client_body(env, t, ops, records[ci]))
         lib = plan.get('watch_library')
         if lib:
+            mon.watch_module_bodies(True)
             mon.watch(mon.library_codes())
             import sys as _sys
             for mname in [n for n in list(_sys.modules) if n == 'sourcer' or n.startswith('sourcer.') or n == 'outsourcer']:
@@ -809,6 +843,7 @@ def simulate(plan, schedule=None, wall_timeout=120.0, attach=None):
             sim.disable_instr()
             if lib:
                 mon.unwatch(mon.library_codes())
+                mon.watch_module_bodies(False)
         env.policy = None
         probe_records = U.run_inline(env, lambda ctx: [U.run_op(env, ctx, op) for op in plan['probes']])
         # a lead, not a verdict: a module built during the run whose generated source differs from the
@@ -846,6 +881,8 @@ def simulate(plan, schedule=None, wall_timeout=120.0, attach=None):
             env.count('shared_state_lines_visited_under_targeted_policy', sim.hot_hits)
         if sim.ipoint_hits:
             env.count('instruction_points_inside_shared_state_lines_visited', sim.ipoint_hits)
+        if sim.body_codes:
+            env.count('module_bodies_under_construction_made_preemptible', sim.body_codes)
         n_instr = sum(1 for s in sim.switches if len(s) > 3)
         if n_instr:
             env.count('preempt_inside_a_source_line', n_instr)
